@@ -148,18 +148,81 @@ def isCommentO : Option Node → Bool
   | some (.comment ..) => true
   | _ => false
 
-/-- prettyPrintCompact's separator decision (the comment test is done by the caller) -/
-def compactSep (ps : PrintState) (s : Option Node) (i : Nat) : PrintState :=
-  if isArray s || (isInfix ps.prev && ps.last != [125] && ps.last != [93]) then
-    if i > 0 then ps.write [32] else ps
-  else ps
+def isWordByte (b : UInt8) : Bool :=
+  (97 ≤ b && b ≤ 122) || (65 ≤ b && b ≤ 90) || (48 ≤ b && b ≤ 57) || b = 95
+
+/-- prettyPrintCompact's separator decision (the comment test is done by the caller); `first` is the first
+byte of what `s` is going to print (0 = unknown) -/
+def compactSep (ps : PrintState) (s : Option Node) (i : Nat) (first : UInt8) : PrintState :=
+  if i = 0 then ps else
+  let needSpace := isArray s || (isInfix ps.prev && ps.last != [125] && ps.last != [93])
+  let needSpace := needSpace || first = 40 || first = 91 ||
+    ((isWordByte first || first = 46) &&
+     (match ps.last.getLast? with
+      | some e => isWordByte e || e = 46
+      | none => false))
+  if needSpace then ps.write [32] else ps
+
+def isLineComment : Option Node → Bool
+  | some (.comment t _ _) => t.type = .LINECOMMENT
+  | _ => false
 
 def longFormSep (ps : PrintState) (s : Option Node) (i : Nat) : PrintState :=
   if i > 0 || ps.indentLevel > 1 then
-    if keepSameLineAsPrevious s || !needNewLineAfter ps.prev then
+    if (keepSameLineAsPrevious s || !needNewLineAfter ps.prev) && !isLineComment ps.prev then
       { (ps.write [32]) with indentationDone := true }
     else ps.println
   else ps
+
+def isNumberLiteral : Option Node → Bool
+  | some (.intLit _) | some (.floatLit _) => true
+  | _ => false
+
+/-- after the dot only a single token (or an identifier with its postfix operator) is read without parentheses -/
+def isSingleToken : Option Node → Bool
+  | some (.ident _) | some (.strLit _) | some (.boolean _) | some (.post ..) => true
+  | _ => false
+
+def litByte (t : Tk) : UInt8 := t.lit.headD 0
+
+mutual
+/-- `ps.firstByte(n, precedence)`: the first byte `n.PrettyPrint` is going to write (0 = can't tell),
+following the same parentheses decisions -/
+def firstByte (allParens : Bool) (n : Node) (prec : Nat) : UInt8 :=
+  match n with
+  | .pre t _ => if allParens || prioPREFIX ≤ prec then 40 else litByte t
+  | .post t p =>
+    match lookupPrec t.type with
+    | none => 0
+    | some q => if allParens || q < prec then 40 else litByte p
+  | .infix t l _ =>
+    match lookupPrec t.type with
+    | none => 0
+    | some q => if allParens || q < prec then 40 else firstByteO allParens l q
+  | .index t l _ =>
+    if t.type = .DOT && isNumberLiteral l then 40 else
+    match lookupPrec t.type with
+    | none => 0
+    | some q => if allParens || q < prec then 40 else firstByteO allParens l q
+  | .call _ f _ => firstByteO allParens f prioCALL
+  | .func t _ params _ _ isLambda =>
+    if !isLambda then litByte t
+    else if prec > prioLAMBDA then 40
+    else match params with
+      | [p] => firstByteO allParens p prec
+      | _ => 40
+  | .strLit _ => 34
+  | .array .. => 91
+  | .mapLit .. => 123
+  | .ifE .. => 105
+  | .forE .. => 102
+  | .ident t | .intLit t | .floatLit t | .boolean t | .control t | .comment t _ _ | .ret t _ | .builtin t _
+  | .macroLit t _ _ => litByte t
+def firstByteO (allParens : Bool) (n : Option Node) (prec : Nat) : UInt8 :=
+  match n with
+  | none => 0
+  | some n => firstByte allParens n prec
+end
 
 /-- a repeated associative operator on the right, `1 + (2 + 3)`: the only right operand of the same
 precedence printed without parentheses -/
@@ -172,6 +235,10 @@ def sameAssociativeOperator (op : Tk) : Node → Bool
 
 /-- printElse's test `len(Alternative.Statements) == 1 && Alternative.Statements[0].Value().Type() == token.IF` -/
 inductive ElseKind | nilFirst | elseIf | block
+
+/-- printElse: in compact mode the comments (which are not printed) do not count -/
+def elseStmts (compact : Bool) (l : List (Option Node)) : List (Option Node) :=
+  if compact then l.filter (fun s => !isCommentO s) else l
 
 def elseKind : List (Option Node) → ElseKind
   | [none] => .nilFirst
@@ -213,7 +280,8 @@ def printNode (tbl : Nat → Bool) (n : Node) (ps : PrintState) : PR :=
   | .infix t left right =>
     match needParen ps t with
     | .error e => .error e
-    | .ok (ps, needP, old) =>
+    | .ok (ps, needP0, old) =>
+      let needP := needP0 && right.isSome   -- the open ended `n:` is never put in parentheses
       let ps := if needP then ps.print [40] else ps
       match printO tbl left ps with
       | .error e => .error e
@@ -243,9 +311,9 @@ def printNode (tbl : Nat → Bool) (n : Node) (ps : PrintState) : PR :=
         match alt with
         | none => .ok ps
         | some l =>
-          match elseKind l with
+          match elseKind (elseStmts pse.compact l) with
           | .nilFirst => .error .nilNode          -- Statements[0].Value() on a nil node
-          | .elseIf => printHead tbl l (if pse.compact then pse.print [32] else pse)
+          | .elseIf => printHead tbl pse.compact l (if pse.compact then pse.print [32] else pse)
           | .block => printBlock tbl l pse
   | .builtin t params =>
     match printList tbl params ((ps.print t.lit).print [40]) 0 with
@@ -291,13 +359,19 @@ def printNode (tbl : Nat → Bool) (n : Node) (ps : PrintState) : PR :=
     | .error e => .error e
     | .ok (ps, needP, old) =>
       let ps := if needP then ps.print [40] else ps
-      match printO tbl left ps with
+      -- printDotOperand: a number next to the dot is put in parentheses
+      let lp := t.type = .DOT && isNumberLiteral left
+      match printO tbl left (if lp then ps.print [40] else ps) with
       | .error e => .error e
       | .ok ps =>
+        let ps := if lp then ps.print [41] else ps
         let ps := ps.print t.lit
-        match printO tbl idx { ps with exprPrec := prioLOWEST } with
+        let ps := { ps with exprPrec := prioLOWEST }
+        let ip := t.type = .DOT && (isNumberLiteral idx || !isSingleToken idx)
+        match printO tbl idx (if ip then ps.print [40] else ps) with
         | .error e => .error e
         | .ok ps =>
+          let ps := if ip then ps.print [41] else ps
           let ps := if t.type = .LBRACKET then ps.print [93] else ps
           let ps := if needP then ps.print [41] else ps
           .ok { ps with exprPrec := old }
@@ -316,11 +390,11 @@ def printO (tbl : Nat → Bool) (n : Option Node) (ps : PrintState) : PR :=
   | none => .error .nilNode
   | some n => printNode tbl n ps
 
-/-- `list[0].PrettyPrint(ps)` (used for `else if`) -/
-def printHead (tbl : Nat → Bool) (l : List (Option Node)) (ps : PrintState) : PR :=
+/-- `stmts[0].PrettyPrint(ps)` of printElse (`else if`): the first statement, the first non-comment one in compact mode -/
+def printHead (tbl : Nat → Bool) (skipComments : Bool) (l : List (Option Node)) (ps : PrintState) : PR :=
   match l with
   | [] => .ok ps
-  | x :: _ => printO tbl x ps
+  | x :: xs => if skipComments && isCommentO x then printHead tbl skipComments xs ps else printO tbl x ps
 
 /-- `ps.ComaList(list)` (i = index of the first element) -/
 def printList (tbl : Nat → Bool) (l : List (Option Node)) (ps : PrintState) (i : Nat) : PR :=
@@ -370,10 +444,15 @@ def printStmtLoop (tbl : Nat → Bool) (l : List (Option Node)) (ps : PrintState
   | s :: rest =>
     if ps.compact && isCommentO s then printStmtLoop tbl rest ps i
     else
-      let ps := if ps.compact then compactSep ps s i else longFormSep ps s i
-      match printO tbl s ps with
+      -- compact mode: a statement starting with - + ^ (++ --) after another one is printed in parentheses
+      let first := firstByteO ps.allParens s prioLOWEST
+      let paren := ps.compact && i > 0 && (first = 45 || first = 43 || first = 94)
+      let ps := if ps.compact then compactSep ps s i (if paren then 40 else first) else longFormSep ps s i
+      match printO tbl s (if paren then ps.print [40] else ps) with
       | .error e => .error e
-      | .ok ps => printStmtLoop tbl rest { ps with prev := s } (i + 1)
+      | .ok ps =>
+        let ps := if paren then ps.print [41] else ps
+        printStmtLoop tbl rest { ps with prev := s } (i + 1)
 
 end
 
